@@ -648,7 +648,8 @@ impl<W: Write + io::Seek> ZipWriter<W> {
                 )
                 .into());
             }
-            let writer = self.inner.get_plain();
+            // the extra data belongs to the (never encrypted) local header: write it to the sink itself
+            let writer = self.inner.get_sink();
 
             // Append extra data to local file header and keep it for central file header.
             writer.write_all(&file.extra_field)?;
@@ -1044,6 +1045,15 @@ impl<W: Write + io::Seek> GenericZipWriter<W> {
 
     fn is_closed(&self) -> bool {
         matches!(*self, GenericZipWriter::Closed)
+    }
+
+    /// The sink itself, also while a ZipCrypto entry is open (its data is buffered until the entry is closed).
+    fn get_sink(&mut self) -> &mut W {
+        match *self {
+            GenericZipWriter::Storer(MaybeEncrypted::Unencrypted(ref mut w)) => w,
+            GenericZipWriter::Storer(MaybeEncrypted::Encrypted(ref mut w)) => &mut w.writer,
+            _ => panic!("Should have switched to stored beforehand"),
+        }
     }
 
     fn get_plain(&mut self) -> &mut W {
